@@ -26,3 +26,21 @@ func verifClosed(ch <-chan struct{}) bool {
 
 // VerifFree returns the number of available tokens.
 func (s *Semaphore) VerifFree() int { return len(s.tokens) }
+
+// VerifRacy is called when more than one case of an awaited select is ready,
+// i.e. the Go runtime will pick one of them at random.
+var VerifRacy func(site string)
+
+// verifReady reports whether any case is ready and notes racy situations.
+func verifReady(cases ...bool) bool {
+	n := 0
+	for _, c := range cases {
+		if c {
+			n++
+		}
+	}
+	if n > 1 && VerifRacy != nil {
+		VerifRacy("semaphore.acquire")
+	}
+	return n > 0
+}
